@@ -190,13 +190,14 @@ fn build_inputs(seed: u64, scale: u8, per_kind_malformed: usize) -> Vec<Input> {
     // derived text inputs: CRLF line ends, no final line terminator, multi-byte UTF-8 characters
     let mut derived = Vec::new();
     for kind in Kind::ALL.iter().copied().filter(|&k| is_text(k)) {
-        // the smallest items that have records (not the header-only / empty ones)
+        // every small item that has records (not the header-only / empty ones)
+        let limit = if scale >= 2 { 100_000 } else { 8_000 };
         let mut cands: Vec<&Input> = out
             .iter()
             .filter(|i| i.kind == kind && i.class == "valid" && i.bytes.len() > 40 && !i.name.contains("header-only") && !i.name.contains("empty"))
             .collect();
         cands.sort_by_key(|i| i.bytes.len());
-        let take = if scale >= 2 { 2 } else { 1 };
+        let take = cands.iter().filter(|i| i.bytes.len() <= limit).count().max(1);
         for base in cands.into_iter().take(take) {
             if !base.bytes.windows(2).any(|w| w == b"\r\n") {
                 derived.push(mk_input(kind, format!("{}+crlf", base.name), to_crlf(&base.bytes), &base.side, "derived"));
@@ -222,6 +223,14 @@ fn build_inputs(seed: u64, scale: u8, per_kind_malformed: usize) -> Vec<Input> {
     derived.push(mk_input(Kind::Vcf, "c12/vcf-utf8-multibyte+crlf".into(), to_crlf(vcf_utf8.as_bytes()), &Side::default(), "derived"));
     let sam_utf8 = "@HD\tVN:1.6\n@SQ\tSN:sq0\tLN:100\n@CO\tGr\u{00fc}\u{00df}e \u{65e5}\u{672c}\u{8a9e}\nr\u{00e9}ad\t0\tsq0\t1\t60\t4M\t*\t0\t0\tACGT\tIIII\tXZ:Z:caf\u{00e9} \u{1f9ec}\n";
     derived.push(mk_input(Kind::Sam, "c12/sam-utf8-multibyte".into(), sam_utf8.as_bytes().to_vec(), &Side::default(), "derived"));
+    // lines that end right after the last mandatory column: the lazy SAM / VCF readers strip the CR of these in their
+    // field scanner, not in read_line
+    let sam_bare = "@HD\tVN:1.6\n@SQ\tSN:sq0\tLN:100\nr0\t0\tsq0\t1\t60\t4M\t*\t0\t0\tACGT\tIIII\nr1\t4\t*\t0\t255\t*\t*\t0\t0\t*\t*\nr2\t16\tsq0\t7\t0\t2M1I1M\t=\t1\t-10\tTTGA\t*\n";
+    derived.push(mk_input(Kind::Sam, "c12/sam-no-optional-fields".into(), sam_bare.as_bytes().to_vec(), &Side::default(), "derived"));
+    derived.push(mk_input(Kind::Sam, "c12/sam-no-optional-fields+crlf".into(), to_crlf(sam_bare.as_bytes()), &Side::default(), "derived"));
+    let vcf_bare = "##fileformat=VCFv4.3\n##contig=<ID=sq0,length=1000>\n##INFO=<ID=DP,Number=1,Type=Integer,Description=\"depth\">\n#CHROM\tPOS\tID\tREF\tALT\tQUAL\tFILTER\tINFO\nsq0\t5\t.\tA\tC\t.\t.\tDP=5\nsq0\t9\trs1\tG\tT,<DEL>\t10.5\tPASS\t.\n";
+    derived.push(mk_input(Kind::Vcf, "c12/vcf-no-samples".into(), vcf_bare.as_bytes().to_vec(), &Side::default(), "derived"));
+    derived.push(mk_input(Kind::Vcf, "c12/vcf-no-samples+crlf".into(), to_crlf(vcf_bare.as_bytes()), &Side::default(), "derived"));
     let gff_utf8 = "##gff-version 3\n#comment \u{65e5}\u{672c}\u{8a9e}\nsq0\tsrc\u{00e9}\tgene\t1\t100\t.\t+\t.\tID=g\u{00e9}ne0;Name=caf\u{00e9} \u{1f9ec}\n";
     derived.push(mk_input(Kind::Gff, "c12/gff-utf8-multibyte".into(), gff_utf8.as_bytes().to_vec(), &Side::default(), "derived"));
     let gtf_utf8 = "sq0\tsrc\u{00e9}\tgene\t1\t100\t.\t+\t.\tgene_id \"g\u{00e9}ne0\"; note \"caf\u{00e9} \u{1f9ec}\";\n";
